@@ -1390,6 +1390,17 @@ class Interp:
             fr.env[s.name] = ('closure', cid)
             fr.defdepth[s.name] = fr.loopdepth
             return
+        if isinstance(s, ast.Expr) and isinstance(s.value, ast.YieldFrom):
+            # yield from X   is   for y in X: yield y
+            nm = '__yf_%d' % next(self.ids)
+            loop = ast.For(target=ast.Name(id=nm, ctx=ast.Store()), iter=s.value.value,
+                           body=[ast.Expr(value=ast.Yield(value=ast.Name(id=nm, ctx=ast.Load())))], orelse=[])
+            ast.copy_location(loop, s)
+            for y in ast.walk(loop):
+                if not hasattr(y, 'lineno'):
+                    ast.copy_location(y, s)
+            ast.fix_missing_locations(loop)
+            return self.stmt(loop, fr)
         if isinstance(s, ast.Expr) and isinstance(s.value, ast.Yield):
             if '__yield__' not in fr.env:
                 raise Unknown('yield outside a recognised generator')
@@ -1610,6 +1621,26 @@ class Interp:
             if self.config.get('emit_lets') and v[0] not in ('const', 'sym', 'bvar'):
                 # evaluation point of a local assignment (opt-in: rules that must see eager evaluation errors)
                 self.emit(Eff('let', fr.func, s, var=tgt.id, value=v))
+            return
+        if isinstance(tgt, (ast.Tuple, ast.List)) and any(isinstance(e, ast.Starred) for e in tgt.elts):
+            # first, *rest = v  /  *init, last = v : fixed positions from either end; the starred name gets the list in between
+            st = [k for k, e in enumerate(tgt.elts) if isinstance(e, ast.Starred)]
+            if len(st) != 1:
+                raise Unknown('two starred targets')
+            k0, n_after = st[0], len(tgt.elts) - st[0] - 1
+            if is_literal_seq(v):
+                if len(v[1]) < len(tgt.elts) - 1:
+                    raise Unknown('not enough values to unpack')
+                mid = ('list', tuple(v[1][k0:len(v[1]) - n_after]))
+            else:
+                mid = CALL(S('list'), [('slice', v, C(k0) if k0 else NONE, C(-n_after) if n_after else NONE)])
+                if v[0] == 'slice' or not n_after:
+                    mid = ('slice', v, C(k0) if k0 else NONE, C(-n_after) if n_after else NONE)
+            for k, e in enumerate(tgt.elts[:k0]):
+                self.assign(e, simp_top(I(v, C(k))), fr, s)
+            for k, e in enumerate(tgt.elts[k0 + 1:]):
+                self.assign(e, simp_top(I(v, C(k - n_after))), fr, s)
+            self.assign(tgt.elts[k0].value, simp_top(mid), fr, s)
             return
         if isinstance(tgt, (ast.Tuple, ast.List)):
             for k, e in enumerate(tgt.elts):
